@@ -1,4 +1,5 @@
 import RoaringModel.Ops
+import RoaringModel.Step32
 /-!
 # Mirrored definitions for the bitmap core (fidelity audit, `notes/fidelity-bitmap-core.md`)
 
@@ -181,4 +182,21 @@ def isDisjointMirror (a b : Bitmap) : Bool :=
     | _ => none).all fun p => p.1.isDisjoint p.2
 
 end Bitmap
+
+/-! ## one mutation step / a history, through the mirrored definitions (what the driver executes) -/
+
+/-- `Bitmap.step` with `extend`, `remove_smallest`, `remove_biggest` taken from this file -/
+def Bitmap.stepMirror (dbg : Bool) (b : Bitmap) : Op32 → Option (Bitmap × Ret32)
+  | .extend vs => some (Bitmap.extendMirror b vs, .unit)
+  | .removeSmallest n => some (Bitmap.removeSmallestMirror b n, .unit)
+  | .removeBiggest n => some (Bitmap.removeBiggestMirror b n, .unit)
+  | op => Bitmap.step dbg b op
+
+def Bitmap.runMirror (dbg : Bool) : Bitmap → List Op32 → Option (Bitmap × List Ret32)
+  | b, [] => some (b, [])
+  | b, op :: ops =>
+    match Bitmap.stepMirror dbg b op with
+    | none => none
+    | some (b', r) => (Bitmap.runMirror dbg b' ops).map fun p => (p.1, r :: p.2)
+
 end Roaring
